@@ -296,6 +296,12 @@ func genStoreOps(c *Ctx, maxOps int, mutateBias int) []storeOp {
 	// (no empty directory name: a visited directory always has a path, and
 	// the storage engine rejects empty keys)
 	dirs := []string{"/", "/home", "/home/u", "/tmp", "/usr/local/bin", "relative", "/home/ü"}
+	if w.Chance(1, 4) {
+		// many directories: listings longer than any small-input fast path
+		for i := 0; i < 40; i++ {
+			dirs = append(dirs, fmt.Sprintf("/d/%02d", (i*17)%40))
+		}
+	}
 	next := 1
 	var ops []storeOp
 	text := func() string {
